@@ -78,12 +78,19 @@ PROPS = {
         "rule": "real get_stack_info on synthetic layouts (accessible / PROT_NONE guard / unmapped, gaps around the 1 MiB guard distance, top of the "
                 "address space, system range shorter than the hull), stack pointers at all in-page offsets; [live part: see DESIGN]. Non-trivial = "
                 "at least one mapping; distinct = distinct (result class, SP situation, in-page offset, #mappings).",
-        "expected_tags": ["result.ok", "result.err", "sp.mapped", "sp.guard", "sp.unmapped", "sp.top"],
+        "expected_tags": ["result.ok", "result.err", "sp.mapped", "sp.guard", "sp.unmapped", "sp.top", "gather.checked", "gather.none"],
         "trusted_base": ["page size is a power of two"],
         "assumptions": ["mappings as produced by aggregate (HullOk; C13)"],
         "explanation": "C06 theorems: guard walk terminates within its fuel and never overflows, totality, region soundness, SP-in-accessible-memory case, "
                        "capped region contains SP and is ≤ 2 KiB, only threads at position ≥ 20 (never the crash-context thread) are shortened; "
-                       "counterexample theorem for the repaired cap defect.",
+                       "counterexample theorem for the repaired cap defect. "
+                       "Theorems/EndToEnd.lean composes the parts of fill_thread_stack (get_stack_info, the shortening, copy_from_process as an oracle for "
+                       "the target's memory, the unreferenced-stack rule, sanitization) into one gathering function and proves E2E_stack_contains_sp: a "
+                       "thread whose stack pointer lies in an accessible mapping gets a recorded region that contains the stack pointer, lies inside the "
+                       "mapping, holds the target's bytes (unsanitized) or zeros below the stack pointer (sanitized), reaches the mapping's end unless "
+                       "shortened, and is shortened only under a limit at list position ≥ 20, never for the crash-context thread, to ≤ 2 KiB.",
+        "extra_modules": ["MdwModel.Theorems.EndToEnd"],
+        "extra_theorems": ["gather_inv", "E2E_stack_contains_sp"],
     },
     "C20": {
         "rule": "real stack_has_pointer_to_mapping on stacks of length 0 … 64 with words at / next to both ends of the principal mapping at all "
@@ -92,7 +99,11 @@ PROPS = {
         "trusted_base": [],
         "assumptions": [],
         "explanation": "C20 theorems: the scan is true iff an aligned slot at/above the SP offset holds an address in the half-open system range; the inclusion "
-                       "rule; no principal mapping ⇒ all stacks skipped; counterexample theorem for the repaired inclusive comparison.",
+                       "rule; no principal mapping ⇒ all stacks skipped; counterexample theorem for the repaired inclusive comparison. "
+                       "E2E_skip_iff (Theorems/EndToEnd.lean): in the composed model of fill_thread_stack the stack is recorded iff the inclusion rule "
+                       "holds on the copy actually taken (the shortened one under a limit), with the offset of the stack pointer in that copy.",
+        "extra_modules": ["MdwModel.Theorems.EndToEnd"],
+        "extra_theorems": ["E2E_skip_iff"],
     },
     "C15": {
         "rule": "real thread_names_stream::write on a synthetic dumper: every subset of unnamed threads for n ≤ 6 (quick) / 8 (thorough), "
